@@ -3,8 +3,9 @@
 (2) demo fails with the change, (3) demo passes without it.  usage: confirm_seeds.py OUTDIR [ids...]"""
 import json, os, re, subprocess, sys
 OUT = sys.argv[1]
-WT = '/tmp/sv/wt'
-ENV = dict(os.environ, CARGO_TARGET_DIR='/tmp/sv/target', CARGO_NET_OFFLINE='true')
+TAG = os.environ.get('CONFIRM_TAG', '')
+WT = '/tmp/sv/wt' + TAG
+ENV = dict(os.environ, CARGO_TARGET_DIR='/tmp/sv/target' + TAG, CARGO_NET_OFFLINE='true')
 
 def sh(cmd, cwd=WT):
     return subprocess.run(cmd, shell=True, cwd=cwd, env=ENV, capture_output=True, text=True)
@@ -25,7 +26,7 @@ if not os.path.exists(WT):
     subprocess.run(f'git -C /repo worktree add -q --detach {WT} HEAD', shell=True, check=True)
 ids = sys.argv[2:] or sorted(d for d in os.listdir(OUT) if re.match(r'C\d\d-\d+$', d))
 results = {}
-resf = '/tmp/sv/results.json'
+resf = '/tmp/sv/results' + TAG + '.json'
 if os.path.exists(resf):
     results = json.load(open(resf))
 for sid in ids:
